@@ -167,6 +167,31 @@ func (s *Scanner) Target(value reflect.Value) {
 //    string
 //    time.Time
 //    nil - for NULL values
+// driverValue widens the integer and float widths in which a change-log row
+// delivers its columns to the kinds a sql.Scanner is written against
+// (driver.Value: int64, float64, bool, []byte, string, time.Time).
+func driverValue(src interface{}) interface{} {
+	switch v := src.(type) {
+	case int8:
+		return int64(v)
+	case int16:
+		return int64(v)
+	case int32:
+		return int64(v)
+	case int:
+		return int64(v)
+	case uint8:
+		return int64(v)
+	case uint16:
+		return int64(v)
+	case uint32:
+		return int64(v)
+	case float32:
+		return float64(v)
+	}
+	return src
+}
+
 func (s *Scanner) Scan(src interface{}) error {
 	// Clear out the value after a scan so we aren't holding onto references.
 	defer func() { s.value = reflect.Value{} }()
@@ -202,7 +227,7 @@ func (s *Scanner) Scan(src interface{}) error {
 
 		// If we have a scanner it will handle its own validity.
 		isValid = true
-		return scanner.Scan(src)
+		return scanner.Scan(driverValue(src))
 	}
 
 	// Null values are simply set to zero. Because we're not holding on to pointers, we need to
